@@ -6,6 +6,7 @@ CONSTANTS
   KindsUnderTest = {"SR", "RR", "SDES", "BYE", "APP", "NACK", "RRR", "TWCC", "CCFB", "PLI", "SLI", "FIR", "REMB", "XR", "RAW"}
   FaultDepth = 1
   MaxFrames = 2
+  MaxCompound = 3
   AllPTs = FALSE
 INVARIANTS TypeOK NoTrunc LimitsDecided LimitsRef Framing
 CHECK_DEADLOCK FALSE
